@@ -6,7 +6,7 @@
    types/basiccollector.go).  Oracles, universally quantified in every theorem: ol = unicode.IsLetter on non-ASCII
    runes, pf = strconv.ParseFloat, rx = regexp.Compile succeeds. *)
 From Coq Require Import ZArith NArith Bool List.
-From PcoreV Require Import Model.Base Model.Lexer Model.Parser Proofs.LexerProofs.
+From PcoreV Require Import Model.Base Model.Lexer Model.Parser Proofs.LexerProofs Proofs.LexerColumns Proofs.ParserProofs.
 Import ListNotations.
 Open Scope Z_scope.
 
@@ -36,6 +36,61 @@ Theorem C06_lex_positions_within_input :
 Proof. exact lex_positions. Qed.
 Print Assumptions C06_lex_positions_within_input.
 
+(* ---- the parser ---------------------------------------------------------------------------------- *)
+
+(* For every byte string and all oracles, Parse (lexer + parser + collector + NamedType, with the fuel the model
+   computes from the input) answers: it never reaches one of the explicit fault sites (index out of range in the
+   collector, the Array type assertions on PopLast(), ... — raw or wrapped as a parse error), never runs out of fuel
+   (no loop of the recursive descent spins) and never reads beyond the end token. *)
+Theorem C06_parse_no_fault :
+  forall (pf : str -> option Z) (rx : str -> bool) (ol : N -> bool) (s : str),
+    parse_string pf rx ol s <> PFault /\ parse_string pf rx ol s <> POutOfFuel.
+Proof. exact parse_no_fault. Qed.
+Print Assumptions C06_parse_no_fault.
+
+(* ... so the result is a value or a located parse error whose line and column lie within the input (pos_within:
+   1 <= line <= 1 + number of line feeds, 0 <= column <= length of that line + 2).  The column of a syntax error is
+   the reader's column minus the number of characters of the offending token (parser.go:149): it is never negative
+   because the unescaped text of a token never has more characters than were read for it. *)
+Theorem C06_parse_total :
+  forall (pf : str -> option Z) (rx : str -> bool) (ol : N -> bool) (s : str),
+    match parse_string pf rx ol s with
+    | POk _ => True
+    | PErr line col => pos_within s line col
+    | PFault => False
+    | POutOfFuel => False
+    end.
+Proof. exact parse_total. Qed.
+Print Assumptions C06_parse_total.
+
+(* the location of every token of the stream (where a syntax error at that token is reported) is not negative *)
+Theorem C06_token_columns_nonnegative :
+  forall (ol : N -> bool) (s : str),
+    Forall (fun t => 0 <= pt_col t - rune_count (pt_text t)) (fst (lex ol s)).
+Proof. exact lex_text_columns. Qed.
+Print Assumptions C06_token_columns_nonnegative.
+
+(* The same over token streams, independent of the lexer: for every stream that ends with an end token or a lexer
+   error, and every set P of admissible locations containing (1, 0), the lexer's error location and the location of
+   every token, ParseFile answers with a value or an error located in P. *)
+Theorem C06_parse_file_total :
+  forall (pf : str -> option Z) (rx : str -> bool) (P : Z -> Z -> Prop) (toks : list ptok) (e : lex_end),
+    P 1 0 ->
+    Forall (fun t => P (pt_line t) (pt_col t - rune_count (pt_text t))) toks ->
+    match e with
+    | ELexErr l c => P l c
+    | EEnd => toks <> [] /\ pt_kind (last toks dummy_tok) = TEnd
+    | _ => False
+    end ->
+    match parse_file pf rx (parse_fuel toks) toks e with
+    | POk _ => True
+    | PErr line col => P line col
+    | PFault => False
+    | POutOfFuel => False
+    end.
+Proof. exact parse_file_total. Qed.
+Print Assumptions C06_parse_file_total.
+
 (* ---- non-vacuity ----------------------------------------------------------------------------------- *)
 
 Definition no_letters (r : N) : bool := false.
@@ -64,4 +119,11 @@ Example C06_parse_value :
   parse_string no_floats all_regexps no_letters
     [70; 111; 111; 91; 49; 44; 32; 39; 120; 39; 93; 32; 61; 62; 32; 123; 97; 61; 62; 47; 120; 47; 125]%N
   = POk (PHash [(PType [70; 111; 111]%N (Some [PInt 1; PStr [120]%N]), PHash [(PStr [97]%N, PRegexp [120]%N)])]).
+Proof. vm_compute. reflexivity. Qed.
+
+(* 1 'éééééééééé' (a syntax error at a token with multi-byte characters: the column was negative on the pinned tree,
+   fix 230c872): located at line 1, column 4 *)
+Example C06_parse_multibyte_located :
+  parse_string no_floats all_regexps no_letters
+    ([49; 32; 39] ++ flat_map (fun _ => [195; 169]) (seq 0 10) ++ [39])%N = PErr 1 4.
 Proof. vm_compute. reflexivity. Qed.
